@@ -293,7 +293,7 @@ func (E *Engine) encodeOnce(name string, level int, cands map[CandKey]bool) (res
 					fx.note("ASSUMED without proof (clause tagged assumed): %s: %s", name, c.Src)
 					continue
 				}
-				if hasTag(c, "perpath") && len(fr.rets) > 1 {
+				if hasTag(c, "perpath") && len(fr.rets) >= 1 {
 					// one obligation per return statement, over that path's own state (no merge of the exit states): smaller
 					// queries for functions with many early returns; together they are the clause
 					saved := fr.curReach
